@@ -56,8 +56,49 @@ pub fn check(c: &Case, obs: &mut Obs) -> Result<(), String> {
     let mut printed = vec![];
     for (k, h) in [&c.h1, &c.h2].iter().enumerate() {
         let mut s = Summary::new();
-        sumapi::apply(&mut s, h)?;
+        // queries interleaved with the calls must not disturb anything, and must themselves be
+        // answered from the values set so far (no memoised answers); a clone taken half-way is
+        // an independent value
+        let mut so_far = m::Assignment::new();
+        let mut snapshot: Option<(Summary, m::Assignment)> = None;
+        for (j, call) in h.iter().enumerate() {
+            sumapi::apply(&mut s, std::slice::from_ref(call))?;
+            so_far = m::apply(&h[..=j]);
+            let complete = m::required().iter().all(|i| so_far.contains_key(i));
+            obs.verdicts += 1;
+            if s.is_completed() != complete {
+                return Err(format!(
+                    "history {}: after call #{} is_completed() = {}, but the required variables set so far say {}",
+                    k + 1, j, s.is_completed(), complete
+                ));
+            }
+            if j % 5 == 2 {
+                let shown = s.to_string();
+                if shown != m::print(&so_far) {
+                    return Err(format!("history {}: after call #{} the entry prints\n{}\nbut the values set so far print as\n{}", k + 1, j, shown, m::print(&so_far)));
+                }
+            }
+            if j == h.len() / 2 {
+                snapshot = Some((s.clone(), so_far.clone()));
+            }
+        }
+        let _ = &so_far;
         let out = s.to_string();
+        if let Some((snap, snap_model)) = &snapshot {
+            // print the clone after the original has moved on and been printed
+            let shown = snap.to_string();
+            obs.verdicts += 1;
+            if shown != m::print(snap_model) {
+                return Err(format!(
+                    "history {}: a clone taken after call #{} prints\n{}\nbut it held\n{}\n(the original was modified afterwards)",
+                    k + 1, h.len() / 2, shown, m::print(snap_model)
+                ));
+            }
+            sumapi::compare(snap, snap_model, "clone taken half-way")?;
+            if s.to_string() != out {
+                return Err(format!("history {}: printing twice gives different text", k + 1));
+            }
+        }
         obs.verdicts += 1;
         if out != want {
             return Err(format!(
@@ -105,7 +146,7 @@ pub fn check(c: &Case, obs: &mut Obs) -> Result<(), String> {
 pub fn property() -> Property {
     Property {
         id: "C07",
-        rule: "An assignment = all 11 required variables plus a random subset of the 12 optional ones; scalar values are text without CR/LF (incl. empty, '=', 'a=b=c', leading/trailing blanks, tabs, non-ASCII, NUL, U+2028), integers from {0, +-1, i64::MIN, i64::MAX, random}, lists of 1-4 lines. Two independent call histories realise it: per variable 0-2 junk set_* calls, then set_*(final) | set_*(prefix)+push_* for the rest | pushes only; the runs of different variables are interleaved randomly. Oracle: (a) both histories print identically and equal M-summary.print(assignment) (fixed order, one line per value) and all 23 getters + description_as_str equal the assignment, is_completed() holds; (b) Summary::from_str(printed) is Ok with the same getters; (c) printing the parsed entry is byte-identical. Non-trivial = >= 3 optional variables set, >= 1 list of >= 2 lines and >= 1 awkward value (empty, contains '=', non-ASCII, negative or extreme integer). Distinct = distinct cases.",
+        rule: "An assignment = all 11 required variables plus a random subset of the 12 optional ones; scalar values are text without CR/LF (incl. empty, '=', 'a=b=c', leading/trailing blanks, tabs, non-ASCII, NUL, U+2028), integers from {0, +-1, i64::MIN, i64::MAX, random}, lists of 1-4 lines. Two independent call histories realise it: per variable 0-2 junk set_* calls, then set_*(final) | set_*(prefix)+push_* for the rest | pushes only; the runs of different variables are interleaved randomly. Queries are interleaved with the calls: is_completed() after every call, Display after every fifth, and a clone taken half-way is printed and read after the original has moved on. One value in ~25 is long (100-700 characters, lists of 20-90 lines). Oracle: (a) both histories print identically and equal M-summary.print(assignment) (fixed order, one line per value) and all 23 getters + description_as_str equal the assignment, is_completed() holds; (b) Summary::from_str(printed) is Ok with the same getters; (c) printing the parsed entry is byte-identical. Non-trivial = >= 3 optional variables set, >= 1 list of >= 2 lines and >= 1 awkward value (empty, contains '=', non-ASCII, negative or extreme integer). Distinct = distinct cases.",
         assumptions: vec!["values contain no CR/LF and lists are non-empty (domain of the property)"],
         streams: vec![random_stream(
             "histories",
